@@ -15,7 +15,7 @@ where
     M: WindowManager<In = u64, Out = Vec<u64>>,
     M::Output: IntoIterator<Item = WindowResult<Vec<u64>>>,
 {
-    // items: (sleep ticks before the call, element) ; element < 0 encodes markers: -5 F&R, -4 Terminate
+    // items: (sleep ticks before the call, element) ; element < 0 encodes markers: -5 F&R, -4 Terminate, -3 FlushBatch, -2 Watermark
     let mut out: Vec<String> = Vec::new();
     for &(ticks, el) in items {
         if ticks > 0 {
@@ -24,6 +24,8 @@ where
         let e = match el {
             -5 => StreamElement::FlushAndRestart,
             -4 => StreamElement::Terminate,
+            -3 => StreamElement::FlushBatch,
+            -2 => StreamElement::Watermark(0),
             v => StreamElement::Item(v as u64),
         };
         let res: Vec<String> = mgr.process(e).into_iter().map(|r| fmt_wr(&r)).collect();
